@@ -1318,7 +1318,11 @@ class Evaluator(object):
         args = []
         for a_ in node.args:
             if isinstance(a_, ast.Starred):
-                args.append(tm.mk("star", self.ev(a_.value, env)))
+                sv = self.ev(a_.value, env)
+                if sv.op in ("tuple", "list") and len(sv.a) <= 16:
+                    args.extend(sv.a)  # f(*(a, b)) is f(a, b)
+                else:
+                    args.append(tm.mk("star", sv))
             else:
                 args.append(self.ev(a_, env))
         kw = []
@@ -1338,6 +1342,21 @@ class Evaluator(object):
                 return tm.const(base.a[0].format(*[a_.a[0] for a_ in args]))
             except Exception:
                 pass
+        if base is not None and node.func.attr == "update" and len(args) == 1 and not kw and isinstance(node.func.value, ast.Name) and node.func.value.id in env:
+            z = args[0]
+            if z.op == "call" and tm.callee_name(z.a[0]) == "builtins.zip" and len(z.a[1]) == 2 and not z.a[2] and z.a[1][0].op in ("tuple", "list") and z.a[1][0].a and all(k.op == "const" and isinstance(k.a[0], str) for k in z.a[1][0].a):
+                # d.update(zip((k1, ..., kn), V)) is d[k1] = V[0]; ...; d[kn] = V[n-1]
+                K, V = z.a[1]
+                if not (V.op in ("tuple", "list") and len(V.a) != len(K.a)):
+                    root = node.func.value.id
+                    for i, k in enumerate(K.a):
+                        v = V.a[i] if V.op in ("tuple", "list") else tm.proj(V, i)
+                        cur = env[root]
+                        ms = self.site("mutate", node, how="setitem", old=cur, root=root, key=k, val=v, target=node.func.value)
+                        env[root] = tm.upd(cur, "setitem", k, v)
+                        ms.d["new"] = env[root]
+                        ms.d["applied"] = True
+                    return tm.none()
         if base is not None and node.func.attr == "count" and len(args) == 1 and not kw and tm.is_const(args[0], True) and base.op == "comp" and base.a[0] == "list" and _boolean_valued_term(base.a[1]):
             # [b(x) for x in it].count(True) with Boolean b is sum(b(x) for x in it)
             return tm.call(tm.mk("builtin", "sum"), (tm.mk("comp", "gen", base.a[1], base.a[2], base.a[3], base.a[4]),))
